@@ -131,6 +131,7 @@ CONFIGS = [
     ("base", "", {}, None),
     ("mapped", "", {"User": "MappedT"}, {l: {"type_mappings": {"User": "MappedT"}} for l in common.LANGS}),
     ("prefixed", "Pre", {}, {"swift": {"prefix": "Pre"}, "kotlin": {"prefix": "Pre"}}),
+    ("prefixed_mapped", "Pre", {"User": "MappedT"}, {l: {"prefix": "Pre", "type_mappings": {"User": "MappedT"}} for l in ("swift", "kotlin")}),
 ]
 
 
@@ -141,7 +142,7 @@ def run_trees(chk, cases, configs=("base",), positions=("field", "vfield", "payl
     for cname, prefix, mapping, cfgs in CONFIGS:
         if cname not in configs:
             continue
-        langs = common.LANGS if cname != "prefixed" else ["swift", "kotlin"]
+        langs = common.LANGS if not cname.startswith("prefixed") else ["swift", "kotlin"]
         results = observe.generate(srcs, langs=langs, cfgs=cfgs)
         for ci, ((tree, da, bare), per, src) in enumerate(zip(cases, results, srcs)):
             for lang in langs:
